@@ -66,7 +66,9 @@ def load_registry():
     # differs from the path in the real crate: harness names are unique, replay selects by name)
     mounts["h_io_state.rs"] = "io_state::verif_io_state"
     mounts["h_v5_pubgate.rs"] = "v5::pubgate::verif_v5_pubgate"
-    replay_paths = {"h_io_state.rs": "io::verif_io_state", "h_v5_pubgate.rs": "v5::dispatcher::verif_v5_pubgate"}
+    mounts["h_v5_client_pubgate.rs"] = "v5::client_pubgate::verif_v5_client_pubgate"
+    replay_paths = {"h_io_state.rs": "io::verif_io_state", "h_v5_pubgate.rs": "v5::dispatcher::verif_v5_pubgate",
+                    "h_v5_client_pubgate.rs": "v5::client::dispatcher::verif_v5_client_pubgate"}
     for hfile, modpath in mounts.items():
         p = os.path.join(HARN, hfile)
         if not os.path.exists(p):
@@ -580,11 +582,19 @@ def main():
         h = byname[r["name"]]
         pr = run_harness(h, args.tier, playback=True)
         ok = False
+        broken = None
         for one in (pr.get("playback_values") or [])[:4]:
             rep, _txt = replay_native(h, one)
             if rep:
                 ok = True
                 break
+            if rep is None:
+                broken = _txt[-600:]
+                break
+        if broken is not None:
+            twin_replays.append({"harness": r["name"], "replayed": False, "why": "replay crate did not build/run"})
+            inconclusive.append((r, "replay crate did not build/run: " + broken))
+            continue
         twin_replays.append({"harness": r["name"], "replayed": True, "reproduced_on_real_crate": ok})
         if ok:
             traces_validated += 1
